@@ -23,6 +23,10 @@ CLAIMS = {
          "Decides on the code's shape, for every path spelling, that the string compared against the protected list is the absolute, symlink-resolved location (path or deepest existing ancestor + remainder), that the comparison respects path-component boundaries, that the confirmed six directories are listed, and that pebble.Open (single production site) and any Stat of the path are reachable only after the whole list failed the test. linux/amd64 only (the GOOS test is folded).",
          "Trusts filepath.Abs/EvalSymlinks/Join semantics; does not decide TOCTOU races or other operating systems.",
          "DESIGN.md §4 C20"),
+ "C14": ("constant evaluation of the single sandbox.Spec composite literal (type-checked AST), who-may-store census over the spec's types, Mount-literal census, must-pass-through for the user-mount append and the mount-point creation, sort-provenance of Spec.Mounts",
+         "The specification is built at one place from constants, so its lock-down is decided for every requested path set: read-only root, no-new-privileges, empty capability sets, six namespaces incl. network, positive memory/pid limits, GOPROXY=off, --network=none, ro bind mounts for every host source, reserved-path/Abs/EvalSymlinks guards on user mounts, fixed destinations reserved, Spec.Mounts is the stably Destination-sorted slice, escape check before any mount point is created.",
+         "Trusts the container runtime to enforce the specification; does not decide paths merely under a reserved path.",
+         "DESIGN.md §4 C14"),
 }
 
 PENDING_REASON = "static check for this property is not armed yet in this revision of the machinery (see DESIGN.md §4 for the planned structural clauses); not claimed until its rules run silent on the tree and fire on their mutants"
